@@ -40,6 +40,17 @@ def cases():
                 a = [fill] * n; a[pos] = v; cs.append(('tm.vec %d %s' % (n, ' '.join(a)), 'vector-' + k))
         for pos in range(8):
             a = [fill] * 8; a[pos] = v; cs.append(('tm.jones %s' % ' '.join(a), 'jones-' + k))
+        # other backgrounds: all zeros, and a diagonal matrix (exact zeros off the diagonal)
+        zero = D['+0']
+        for pos in range(8):
+            a = [zero] * 8; a[pos] = v; cs.append(('tm.jones %s' % ' '.join(a), 'jones-zero-background-' + k))
+            a = [D['one'], D['-one'], zero, zero, zero, zero, D['max'], D['one']]; a[pos] = v; cs.append(('tm.jones %s' % ' '.join(a), 'jones-diagonal-background-' + k))
+            a = [zero, zero, D['one'], D['-one'], D['max'], D['one'], zero, zero]; a[pos] = v; cs.append(('tm.jones %s' % ' '.join(a), 'jones-antidiagonal-background-' + k))
+        for n in (2, 4):
+            for pos in range(n):
+                a = [zero] * n; a[pos] = v; cs.append(('tm.vec %d %s' % (n, ' '.join(a)), 'vector-zero-background-' + k))
+        for pos in range(2):
+            a = [zero, zero]; a[pos] = v; cs.append(('tm.cx %s' % ' '.join(a), 'complex-zero-background-' + k))
         for pos in range(4):
             a = [fill] * 4; a[pos] = v; cs.append(('tm.stokes %s' % ' '.join(a), 'stokes-' + k)); cs.append(('tm.mat22 %s' % ' '.join(a), 'matrix-' + k)); cs.append(('tm.vecvec %s' % ' '.join(a), 'vector-of-vectors-' + k))
         for pos in range(6):
